@@ -322,7 +322,13 @@ def _merge(ancestor, our, their, allowed=None):
     unmergeable = list(diff(patch_ours_first, patch_theirs_first))
     if unmergeable:
         unmergeable_paths = []
-        for paths in patch(unmergeable, {}):
+        # NOTE: an entry removed by one side and changed by the other shows up
+        # as a 'remove' record, which cannot be applied to an empty dict.
+        conflicts = [
+            ("add" if typ == "remove" else typ, node, changes)
+            for typ, node, changes in unmergeable
+        ]
+        for paths in patch(conflicts, {}):
             unmergeable_paths.append(posixpath.join(*paths))
         raise MergeError(
             "unable to auto-merge the following paths:\n" + "\n".join(unmergeable_paths)
